@@ -128,7 +128,7 @@ Qed.
 Theorem C19_tie_source_shape :
   timeout_leniency_ns = 250000000 /\
   src_select_branches = [("<-ctx.Done()", true); ("<-s.disconnected", true); ("msg := <-ch", false); ("<-timer.C", true)]%string /\
-  src_sync_sendRequestWithTimeout = ["s.pendingReq.Add(1)"; "s.sendAsyncWithTimeout(ctx, req, reqID, instance, authToken, respRequired, timeout)";
+  src_sync_sendRequestWithTimeout = ["s.sendAsyncWithTimeout(ctx, req, reqID, instance, authToken, respRequired, timeout)";
      "s.pendingReq.Done()"; "s.popHandler(reqID)"; "s.popHandler(reqID)"; "s.popHandler(reqID)"]%string /\
   src_sync_dispatcher = ["s.Receive(ctx)"; "s.popHandler(msg.RequestID)"; "s.rcvLocker.lock()"; "s.rcvLocker.waitIfLock()"]%string /\
   In "s.popHandler(reqID)"%string src_sync_sendAsyncWithTimeout.
